@@ -723,6 +723,8 @@ def _float01(node):
 def c08_static(repo):
     f = repo + "/quantarhei/qm/liouvillespace/evolutionsuperoperator.py"
     out = {}
+    import translate_c08
+    translate_c08.precheck(repo)          # state on the object besides the modelled fields is named specifically
     env = match(f, "EvolutionSuperOperator._elemental_step_TimeIndep", T_ELEMENTAL)
     for h in ("sr", "sc", "tr", "tc"):
         node = env["H_" + h]
@@ -748,8 +750,9 @@ def c08_static(repo):
     if not (isinstance(env["H_left"], ast.Name) and env["H_left"].id == "Udt"):
         raise Untranslatable("remaining steps contract %s" % ast.unparse(env["H_left"]))
     out["rl"] = "Udt"
-    return C08_FILE % out, ["evolutionsuperoperator.py:_elemental_step_TimeIndep", "evolutionsuperoperator.py:_one_step_with_dense_TimeIndep",
-                            "evolutionsuperoperator.py:_calculate_remainig_using_first_interval"]
+    t2, w2 = translate_c08.extra(repo)    # bookkeeping around the kernels (harness/translate_c08.py)
+    return C08_FILE % out + t2, ["evolutionsuperoperator.py:_elemental_step_TimeIndep", "evolutionsuperoperator.py:_one_step_with_dense_TimeIndep",
+                                 "evolutionsuperoperator.py:_calculate_remainig_using_first_interval"] + w2
 
 
 STATIC = {"C16": c16_static, "C17": c17_static, "C08": c08_static}
